@@ -42,7 +42,7 @@ Theorem C02_over_depth_never_accepted : forall o d v rest, offset_ns o = 0 -> wf
 Proof. exact over_depth_never_accepted. Qed.
 Print Assumptions C02_over_depth_never_accepted.
 
-Theorem C02_oracle : forall c, valid c -> valid_bytes c -> known c = 0 -> oracle c (C02.Model.run c) = true.
+Theorem C02_oracle : forall c, valid c -> known c = 0 -> oracle c (C02.Model.run c) = true.
 Proof. exact oracle_holds. Qed.
 Print Assumptions C02_oracle.
 
